@@ -38,10 +38,15 @@ pub fn tokenize(s: &str) -> Result<Vec<J>, String> {
             }
             let w: String = cs[st..i].iter().collect();
             let n: i64 = w.parse().map_err(|_| format!("bad integer {}", w))?;
-            if n > i32::MAX as i64 {
+            if n == 2147483648 && out.last() == Some(&json!({"t":"op","v":"-"})) {
+                // 2147483648 is no 32-bit literal on its own: with its sign it is the least integer
+                out.pop();
+                out.push(json!({"t":"int","v":-2147483648i64}));
+            } else if n > i32::MAX as i64 {
                 return Err(format!("integer literal {} too large for the checker", n));
+            } else {
+                out.push(json!({"t":"int","v":n}));
             }
-            out.push(json!({"t":"int","v":n}));
         } else if c == '"' {
             let st = i + 1;
             i += 1;
@@ -127,6 +132,8 @@ pub fn main(args: &Args) -> i32 {
         vec![a.clone(), b.clone(), c.clone()],
         vec![lit(&Value::Int(5)), b.clone(), lit(&Value::Int(-5))],
         vec![a.clone(), lit(&Value::Str("x".into())), lit(&Value::Null)],
+        vec![lit(&Value::Int(i32::MIN)), a.clone(), lit(&Value::Int(-1))],
+        vec![lit(&Value::Null), lit(&Value::Int(i32::MAX)), b.clone()],
     ];
     let mut exprs: Vec<J> = Vec::new();
     // every parent/child operator pair, on either side
@@ -213,11 +220,13 @@ pub fn main(args: &Args) -> i32 {
         let text = to_select(q).to_string();
         emit("select", "q", q, text);
     }
-    let vals = vec![Value::Null, Value::Int(0), Value::Int(-7), Value::Int(2147483647), Value::Str("quux".into()), Value::Str("".into())];
+    let vals = vec![Value::Null, Value::Int(0), Value::Int(-7), Value::Int(2147483647), Value::Str("quux".into()), Value::Str("".into()),
+                    Value::Int(i32::MIN), Value::Int(-1), Value::Str("NULL".into()), Value::Str("a b".into()), Value::Int(65536)];
     let mut others = 0;
-    for nrows in 0..3usize {
-        for ncols in 1..4usize {
-            let rows: Vec<Vec<Value>> = (0..nrows).map(|r| (0..ncols).map(|c| vals[(r * 3 + c * 2) % vals.len()].clone()).collect()).collect();
+    for nrows in 0..5usize {
+        for ncols in 1..5usize {
+            // every value meets every position: the offsets walk through vals as rows and columns grow
+            let rows: Vec<Vec<Value>> = (0..nrows).map(|r| (0..ncols).map(|c| vals[(r * 3 + c * 2 + nrows * 5 + ncols) % vals.len()].clone()).collect()).collect();
             let q = json!({"table": cps("Foobar"), "rows": rows.iter().map(|r| r.iter().map(j::val).collect::<Vec<_>>()).collect::<Vec<_>>()});
             let text = Insert::into("Foobar").rows(rows).to_string();
             emit("insert", "q", &q, text);
@@ -225,8 +234,8 @@ pub fn main(args: &Args) -> i32 {
         }
     }
     for cnd in &conds {
-        for nsets in 1..4usize {
-            let sets: Vec<(String, Value)> = (0..nsets).map(|k| (format!("C{}", k), vals[(k * 2 + nsets) % vals.len()].clone())).collect();
+        for nsets in 1..5usize {
+            let sets: Vec<(String, Value)> = (0..nsets).map(|k| (format!("C{}", (k * 7 + nsets) % 5), vals[(k * 2 + nsets * 3) % vals.len()].clone())).collect();
             let mut u = Update::table("Foobar");
             for (cn, v) in &sets {
                 u = u.set(cn.as_str(), v.clone());
